@@ -316,9 +316,25 @@ func c20CheckStorage(w *World, res *CaseResult) error {
 					obs["childrefs-broken-found-pending-deletion"]++
 				}
 			}
-			// ... and committed
+			// ... and committed (alternately with the order-relaxed commit on its parallel path: two more slabs are
+			// re-stored unchanged so that the write set holds >= 2 modified slabs next to the deletion)
 			led.inCommit = true
-			if err := ps2.FastCommit(2); err != nil {
+			if n%2 == 1 {
+				restored := 0
+				for _, rid := range ids {
+					if rid == id || restored >= 2 {
+						continue
+					}
+					if sl, found, _ := ps2.Retrieve(rid); found {
+						_ = ps2.Store(rid, sl)
+						restored++
+					}
+				}
+				if err := ps2.NondeterministicFastCommit(3); err != nil {
+					return viol("harness", "commit failed: %v", err)
+				}
+				obs["api-deletions-committed-by-the-relaxed-commit"]++
+			} else if err := ps2.FastCommit(2); err != nil {
 				return viol("harness", "commit failed: %v", err)
 			}
 			led.inCommit = false
@@ -578,6 +594,11 @@ func runC20(c *CaseCtx) *CaseResult {
 	cc.Hist = HistCfg{DescendPct: 30, PopOnChild: true}
 	cc.Mon = MonCfg{TreeEvery: 17}
 	cc.Phases = scalePhases(cc.Ops, []Phase{PhaseGrow, PhaseChurn}, []int{70, 30})
+	// commits inside the history (both flavours): the warm checkpoints then see a storage whose cache went through
+	// commits with deletions
+	cc.CommitEvery = 40
+	cc.Relaxed = c.Case%4 >= 2
+	cc.Workers = 1 + c.Case%3
 	if kind == "map" {
 		cc.Dig = &DigProfile{Alpha: [4]uint64{uint64(4 + r.Intn(12)), 2, 2, 0}, Salt: uint64(r.Int63())}
 		cc.Prof.KeySpace = 200
@@ -618,7 +639,7 @@ func runC20(c *CaseCtx) *CaseResult {
 			}
 		}
 		if err == nil {
-			err = w.Commit(false, 2)
+			err = w.Commit(cc.Relaxed, 2)
 		}
 		if err == nil {
 			err = c20CheckStorage(w, res)
